@@ -1,6 +1,6 @@
 """C38 PROXY protocol headers: rejection gates and bounded parsing (DESIGN.md 5/C38)."""
 from .. import expr as E
-from ..flow import ev_call, ev_return, ev_throw, ev_any
+from ..flow import ev_call, ev_return, ev_throw, ev_any, ev_exit
 
 P1 = "ProxyProtocol::One::"
 P2 = "ProxyProtocol::Two::"
@@ -82,4 +82,60 @@ def run(ck):
     enough = E.M(lambda t: E.strip(t).get("k") == "bin" and E.strip(t).get("op") == "<" and "SBuf::length" in E.mentions(E.strip(t)["l"]) and P2 + "Magic" in E.mentions(E.strip(t)["r"]), "buf.length() < Two::Magic().length()")
     ck.require_fact("V4.magic", fl, bad_magic, enough, False, "throw invalid magic", why="(a short prefix of a valid header would be rejected)")
     ck.require_fact("V4.magic", fl, insuff, enough, True, "throw InsufficientInput")
+    ck.rule("V5 Two::ParseTLVs: the TLV loop ends only with tok.atEnd() established (every byte of the header block is either decoded as part of a TLV or makes the "
+            "tokenizer throw): a loop bound such as 'more than 3 bytes left' silently drops a final empty-value TLV and accepts 1-2 stray trailing bytes")
+    tl = facts.fn("ProxyProtocol::Two::ParseTLVs")
+    at_end = E.M(lambda t: E.strip(t).get("k") == "call" and E.strip(t).get("f", "").endswith("BinaryTokenizer::atEnd"), "tok.atEnd()")
+    tfl = ck.flow(tl)
+    for st in ck.sites(tfl, ev_exit(("ret", "fall")), "exit", 1):
+        if st.has(at_end, True):
+            ck.ok("V5.tlvs-consume-block", st.where(), "ParseTLVs returns only with tok.atEnd()")
+        else:
+            ck.violation("V5.tlvs-consume-block", "V5|ParseTLVs|exit-without-atEnd", st.where(),
+                         "ParseTLVs can return while bytes of the header block remain undecoded (facts: %s)" % ", ".join(st.fact_keys())[:160], tfl.witness(st))
+
+    ck.rule("V6 TABLE Header::addressFamily (the v1 family check compares it with the declared TCP4/TCP6): over all assignments of {src,dst}.{isIPv4,isIPv6} the returned "
+            "constant is \"6\" exactly when both are IPv6, \"4\" exactly when both are IPv4, and the mixed marker otherwise")
+    hf = ck.facts(["src/proxyp/Header.cc"]).fn("ProxyProtocol::Header::addressFamily")
+    consts = {}
+    for b in hf.blocks.values():
+        for ev in b["ev"]:
+            if ev.get("e") == "decl" and E.strip(ev.get("init") or {}).get("k") == "ctor":
+                a = E.strip(ev["init"]).get("a", [])
+                if len(a) == 1 and E.strip(a[0]).get("k") == "str":
+                    consts[ev["d"]] = E.strip(a[0])["v"]
+    rets = [ev for b in hf.blocks.values() for ev in b["ev"] if ev.get("e") == "ret"]
+    ck.need(len(rets) == 1 and len(consts) >= 3, "C38: addressFamily no longer returns one expression over three constant markers")
+
+    def value(t, asg):
+        t = E.strip(t)
+        if t.get("k") == "cond":
+            def leaf(x):
+                x = E.strip(x)
+                if x.get("k") == "call" and x.get("f") in ("Ip::Address::isIPv4", "Ip::Address::isIPv6"):
+                    o = E.strip(x.get("o"))
+                    who = "src" if "sourceAddress" in E.key(o) else ("dst" if "destinationAddress" in E.key(o) else None)
+                    return asg.get((who, x["f"][-4:]))
+                return None
+            c = E.eval3(t["c"], leaf)
+            if c is None:
+                raise ck.broken("C38: addressFamily tests something other than the two addresses' families: %s" % E.key(t["c"])[:100])
+            return value(t["t"] if c else t["f"], asg)
+        if t.get("k") == "ref" and t.get("d") in consts:
+            return consts[t["d"]]
+        raise ck.broken("C38: addressFamily returns an unrecognised expression: %s" % E.key(t)[:100])
+    bad = []
+    fams = ("IPv4", "IPv6")
+    for sf in fams:
+        for df in fams:
+            asg = {("src", "IPv4"): sf == "IPv4", ("src", "IPv6"): sf == "IPv6", ("dst", "IPv4"): df == "IPv4", ("dst", "IPv6"): df == "IPv6"}
+            got = value(rets[0]["x"], asg)
+            want = "4" if sf == df == "IPv4" else ("6" if sf == df == "IPv6" else None)
+            okv = (got == want) if want else (got not in ("4", "6"))
+            if not okv:
+                bad.append("src=%s dst=%s -> %r" % (sf, df, got))
+    if not bad:
+        ck.ok("V6.family-table", hf.where(), "addressFamily: 4/6 only when both addresses have that family (4 assignments)")
+    else:
+        ck.violation("V6.family-table", "V6|addressFamily|table", hf.where(), "addressFamily decision table differs from the reference: %s (a `PROXY TCP4` header with one IPv6 address passes the family check)" % "; ".join(bad))
     ck.assume("prefix consistency and decoded == encoded over all byte prefixes are not decided; BinaryTokenizer's own bounds checks are trusted")
